@@ -110,6 +110,8 @@ struct World {
     if (o.active_time_map_ != wt) return fmt("%s: active time map is not %s", name, m.tm ? "the user map" : "its OWN default map");
     if (o.active_spatial_map_ != wsm) return fmt("%s: active spatial map is not %s", name, m.sm ? "the user map" : "its OWN default map");
     if (other && o.internal_ws_ && other->internal_ws_ && o.internal_ws_.get() == other->internal_ws_.get()) return std::string(name) + ": built-in workspace shared with another optimizer";
+    // a copy / assigned instance exposes a built-in-workspace spline exactly when its source did at the time of the copy
+    if ((o.getOptimalSpline() != nullptr) != m.ws) return fmt("%s: getOptimalSpline() is %s but the modelled optimizer %s a built-in workspace (an assigned optimizer must not keep its old workspace)", name, o.getOptimalSpline() ? "non-null" : "null", m.ws ? "has" : "has no");
     return "";
   }
   std::string check(std::string &digest) {
